@@ -317,7 +317,12 @@ func hostScanTable(ctx *Ctx, r *Result) {
 		r.undecided("R13.7", "fastParseHost", fmt.Sprint("byte-class tables: ", e1, e2, e3, " digits=", digits))
 		return
 	}
-	_ = labels
+	digitsAreLabels := true
+	for _, c := range digits {
+		if !strings.ContainsRune(labels, c) {
+			digitsAreLabels = false
+		}
+	}
 	// roles of the loop-carried values
 	var hdr, iPhi, assumePhi, prevPhi string
 	for _, pa := range paths {
@@ -377,6 +382,16 @@ func hostScanTable(ctx *Ctx, r *Result) {
 		desc := "fastParseHost step {" + shortAtomsFrom(pa, pa.PreAt) + "}"
 		more, s, d, l := pa.Val(aMore), pa.Val(aSep), pa.Val(aDig), pa.Val(aLbl)
 		pv, z := pa.Val(prevPhi), pa.Val(aZero)
+		// digits are label bytes (table inclusion): not a label byte ⇒ not a
+		// digit; a digit ⇒ a label byte
+		if digitsAreLabels {
+			if l == -1 && d == 0 {
+				d = -1
+			}
+			if d == 1 && l == 0 {
+				l = 1
+			}
+		}
 		good, detail := true, ""
 		fail := func(msg string) { good, detail = false, msg }
 		if pa.End == "return" {
@@ -427,6 +442,20 @@ func hostScanTable(ctx *Ctx, r *Result) {
 				fail("a digit inside a label changes the IPv4 guess: " + nA)
 			case !atStart && !inside:
 				fail("a digit is consumed without knowing whether it starts a label")
+			}
+		case s == -1 && d == 0 && l == 1:
+			// a label byte whose digit-ness the path has not branched on: the
+			// guess may be assigned the digit test itself (`guess = isDigit(b)`),
+			// which is "set for a digit, cleared otherwise"
+			switch {
+			case nP != "false":
+				fail("after a label byte the label-start flag is " + nP)
+			case pv == 1 && nA != aDig:
+				fail("at the start of a label the IPv4 guess does not become `the byte is a digit`: " + nA)
+			case pv == -1 && nA != assumePhi:
+				fail("inside a label the IPv4 guess changes: " + nA)
+			case pv == 0:
+				fail("a label byte is consumed without knowing whether it starts a label")
 			}
 		case s == -1 && d == -1 && l == 1:
 			switch {
